@@ -160,12 +160,9 @@ fn guess_frequency(raw_freq: f64, base_guess: f64, tolerance: f64) -> Option<f64
     if raw_freq <= 0.0 || base_guess <= 0.0 || !raw_freq.is_finite() {
         return None;
     }
-    let multiplier = (raw_freq / base_guess).round();
-    if multiplier <= 0.0 {
-        return None;
-    }
-    let normalized = raw_freq / multiplier;
-    if (normalized - base_guess).abs() <= base_guess * tolerance {
+    // Only a rate that is itself within the tolerance of the guess belongs to its family;
+    // multiples of the guess (200 Hz, 300 Hz, ...) are different clocks.
+    if (raw_freq - base_guess).abs() <= base_guess * tolerance {
         Some(base_guess)
     } else {
         None
